@@ -62,8 +62,8 @@ func readFindings() ([]finding, []string) {
 	return open, fixed
 }
 
-func analyse(goarch string) (*core.Collector, error) {
-	w, err := load.Load(goarch)
+func analyse(goarch string, overlay map[string][]byte) (*core.Collector, error) {
+	w, err := load.LoadOverlay(goarch, overlay)
 	if err != nil {
 		return nil, err
 	}
@@ -110,7 +110,7 @@ func check(propID, tier string) int {
 	universe := map[string]int{}
 	var notes []string
 	for _, arch := range variants {
-		c, err := analyse(arch)
+		c, err := analyse(arch, nil)
 		if err != nil {
 			fmt.Printf("VIOLATION property=%s replay=%s\n", propID, writeReplay(propID, core.Obligation{Rule: "LOAD", Key: "load:" + arch, Verdict: core.Undecided, Detail: err.Error()}))
 			return 1
@@ -178,6 +178,24 @@ func check(propID, tier string) int {
 			samples = append(samples, o)
 		}
 	}
+	// thorough tier: the both-ways self-test of the rules that serve this property.
+	var selfOut []mutantOutcome
+	selfCnt := map[string]int{}
+	if tier == "thorough" {
+		baseBad := map[string]bool{}
+		for _, o := range obls {
+			if o.Verdict == core.Violation || o.Verdict == core.Undecided {
+				baseBad[o.ID()] = true
+			}
+		}
+		selfOut = runMutants(propID, baseBad, 4)
+		for _, o := range selfOut {
+			selfCnt[o.Status]++
+			if o.Status == "missed" {
+				fmt.Printf("SELFTEST-MISS property=%s seeded edit %s applied to this tree is not reported (expected %v)\n", propID, o.Name, o.Expect)
+			}
+		}
+	}
 	seed, _ := strconv.Atoi(os.Getenv("VERIF_SEED"))
 	ev := evidence{
 		PropertyID: propID, Tier: tier, Seed: seed, Level: "other",
@@ -206,6 +224,13 @@ func check(propID, tier string) int {
 		},
 		WallS:      time.Since(t0).Seconds(),
 		Violations: nViol,
+	}
+	if tier == "thorough" {
+		ev.Coverage["selftest"] = map[string]any{
+			"rule":    "each seeded property-breaking edit of this property (/verif/mutants, /verif/seeded) is applied in memory (go/packages overlay) to the tree under analysis and analysed in a child process; it counts as detected when one of the obligations it names turns into a violation the unchanged tree does not have",
+			"counts":  selfCnt,
+			"results": selfOut,
+		}
 	}
 	os.MkdirAll(filepath.Join(verifDir(), "evidence"), 0o755)
 	data, _ := json.MarshalIndent(ev, "", " ")
@@ -259,8 +284,20 @@ func main() {
 		}
 	case "manifest":
 		writeManifest()
+	case "obls":
+		fs := flag.NewFlagSet("obls", flag.ExitOnError)
+		mut := fs.String("mutant", "", "name of a seeded edit to apply in memory")
+		arch := fs.String("goarch", "", "GOARCH of the build variant")
+		fs.Parse(os.Args[2:])
+		os.Exit(obls(*mut, *arch))
+	case "selftest":
+		fs := flag.NewFlagSet("selftest", flag.ExitOnError)
+		prop := fs.String("property", "", "restrict to the seeded edits of one property")
+		par := fs.Int("j", 4, "variants analysed in parallel")
+		fs.Parse(os.Args[2:])
+		os.Exit(selftest(*prop, *par))
 	case "dump":
-		c, err := analyse(os.Getenv("SEMA_GOARCH"))
+		c, err := analyse(os.Getenv("SEMA_GOARCH"), nil)
 		if err != nil {
 			fmt.Println("LOAD ERROR:", err)
 			os.Exit(2)
@@ -289,7 +326,6 @@ func main() {
 		os.Exit(2)
 	}
 }
-
 
 // writeManifest prints MANIFEST.json derived from the property table, so that the
 // manifest, the evidence texts and DESIGN.md's summary share one source.
